@@ -55,6 +55,8 @@ open_("C10", ["C10|recovered-state|*|S/*|*"],
       SP + "not crash consistent: scans do not filter uncommitted records, the committed-transaction index of a sealed segment (bpt/txid) and the bucket metadata are written after the commit record, so after a crash committed keys can be missing from scans/GetAll and in-flight records visible (RAM modes: no finding)")
 open_("C11", ["C11|recovered-state|*|S/*|*"],
       SP + "same crash-consistency defects under power loss with SyncEnable (index and metadata files are written after the synced commit record)")
+open_("C11", ["C11|recovered-state|*@powerloss|K*/*|in-merge", "C11|recovered-state|*@powerloss|K*/*|in-merge,*", "C11|recovered-state|*@powerloss|K*/*|*,in-merge"],
+      "Merge unlinks the merged segment files without ever syncing the directory: after a power loss during Merge an older segment can reappear while a newer one, which held the tombstone of a key (or the SRem of a member), stays removed, so a deleted key comes back (the property counts an unsynced removal as one that may be undone)")
 open_("C12", ["C12|effect-in-process|*|*|fault", "C12|effect-after-reopen|*|S/*|fault"],
       "an I/O error in the middle of Commit (record write, sync, or create/truncate of the next segment during rotation) returns an error but leaves the transaction's earlier entries inserted in the in-memory index (and, after a failed rotation, the active file closed): reads in the running process change although the transaction failed; in sparse mode the partial commit also survives reopen")
 open_("C13", ["C13|call-result|*|KV/*|*", "C13|obs-mismatch|SCard:wrong-value|KV/*|*", "C13|obs-mismatch|SIsMember:wrong-value|KV/*|*", "C13|obs-mismatch|SMembers:extra|KV/*|*", "C13|obs-mismatch|SUnionByOneBucket:extra|KV/*|*"],
